@@ -7,10 +7,21 @@ automatic heartbeats).  Every frame passed to `transport.write` is
   * compared byte for byte with the Lean model `FixFrame.frame` (drv_C13 op fix.frame; SendingTime read from the frame);
 and all frames of a session are fed to a real `FixMessageReader` under random segmentation: exactly the frames written must
 come out, each decoding to what was sent (+ the framing fields); the cut points are compared with the model (`fix.feed`),
-the decoded messages with `fix.deser`."""
+the decoded messages with `fix.deser`.
+
+Message OBJECTS over time.  A send item of a session is either a freshly built message or a RE-SEND of a message object an earlier
+item of the same session built, after a list of in-place changes (`edits`) at every depth the dictionary offers: a header / body /
+trailer field assigned, removed, a whole group list assigned, a field of a group instance (outer, nested, nested twice) assigned
+or removed, an instance appended / inserted / replaced / deleted in a (nested) list — through every spelling of the API (by tag,
+by name, attribute, `.groups`).  "Equal to what was sent" is judged against the message AS IT IS at the moment of each send: an
+independent deep image (`as_collection()`, no `to_bytes` involved) is taken right before and right after every `send_msg`, and
+the harness' own abstract simulation of the edits (no library involved) gives the same states to the reference encoder and to
+the model (`fix.frame` per send, `fix.resend` per object history: Model/FixObj.lean, Props/C14Resend.lean)."""
 import asyncio
+import copy
 import json
 import os
+import random
 
 import common
 from common import sx, cps, parse_sx, err_name
@@ -18,6 +29,7 @@ import fix_common as fc
 import vloop
 
 DRIVER = 'drv_C13'
+HISTORY_OP = False
 KNOWN_LOCAL = []
 SOH = b'\x01'
 VERSIONS = {'44': 'FIX.4.4', '50': 'FIXT.1.1'}
@@ -43,7 +55,20 @@ STAMP_ORDER = [50, 56, 49, 34, 52]
 APP_TYPE_CHARS = 'BCDEFGHIJKLMNOPQRSTUVWXYZabcdefghijklmnopqrstuvwxyz1234678'
 
 
-def gen_dictionary(rng):
+def gen_chain(rng, pool, levels):
+    """a repeating group holding a repeating group … `levels` deep (each level: 1-3 fields, the first entry a field; now and then a
+    second, flat group next to the nested one)"""
+    sub = fc.gen_entries(rng, pool, rng.randint(1, 3), 0, first_is_field=True)
+    if levels > 1:
+        sub.insert(rng.randint(1, len(sub)), gen_chain(rng, pool, levels - 1))
+        if rng.random() < 0.25:
+            sub.insert(rng.randint(1, len(sub)), gen_chain(rng, pool, 1))
+    return ('g', pool.fresh(), rng.random() < 0.3, sub)
+
+
+def gen_dictionary(rng, nested=False):
+    """`nested`: the first application message is guaranteed a group inside a group (2 or 3 levels), half of the time the header a
+    group of its own — the dictionaries of the re-send histories"""
     pool = fc.TagPool(rng, exclude=(58,))
     hdr = [('f', 8, 'string', True), ('f', 9, 'int', True), ('f', 35, 'string', True), ('f', 49, 'string', True),
            ('f', 56, 'string', True), ('f', 34, 'int', True), ('f', 50, 'string', False)]
@@ -51,6 +76,8 @@ def gen_dictionary(rng):
         hdr.append(('f', 57, 'string', False))
     if rng.random() < 0.9:
         hdr.append(('f', 52, 'string', True))
+    if nested and rng.random() < 0.5:
+        hdr.append(gen_chain(rng, pool, rng.choice([1, 1, 2])))
     hdr += fc.gen_entries(rng, pool, rng.randint(0, 2), 1 if rng.random() < 0.3 else 0)
     if rng.random() < 0.4:
         rng.shuffle(hdr)
@@ -63,8 +90,10 @@ def gen_dictionary(rng):
     types = set()
     while len(types) < rng.randint(1, 3):
         types.add(''.join(rng.choice(APP_TYPE_CHARS) for _ in range(rng.randint(1, 2))))
-    for ty in sorted(types):
+    for n, ty in enumerate(sorted(types)):
         body = [('f', 58, 'string', False)] + fc.gen_entries(rng, pool, rng.randint(0, 5), depth)
+        if nested and n == 0:
+            body.append(gen_chain(rng, pool, rng.choice([2, 2, 3])))
         if rng.random() < 0.5:
             rng.shuffle(body)
         mdefs.append({'name': fc.fresh_name(), 'type': ty, 'hdr': hdr, 'body': body, 'trl': trl})
@@ -107,6 +136,252 @@ def gen_app_message(rng, d, big=False):
     b = fc.gen_seg(rng, d['body'], max_inst=8 if big else 3)
     t = fc.gen_seg(rng, [e for e in d['trl'] if echo or e[1] != 10], p_optional=0.9 if echo else 0.5)
     return {'hdr': h, 'body': b, 'trl': t}
+
+
+def inst_depth(seg):
+    """how deep the group instances PRESENT in a segment value go (0 = no instance)"""
+    return max([0] + [1 + inst_depth(i) for _, v in seg if v[0] == 'grp' for i in v[1]])
+
+
+def gen_deep_message(rng, d, want):
+    """a message whose body holds instances nested `want` deep (best effort: the deepest of a few tries)"""
+    best = None
+    for _ in range(16):
+        m = gen_app_message(rng, d)
+        if best is None or inst_depth(m['body']) > inst_depth(best['body']):
+            best = m
+        if inst_depth(best['body']) >= want:
+            break
+    return best
+
+
+# ------------------------------------------------------------------ in-place edits of a message object between two sends
+# edit = {'op', 'seg': 'hdr'|'body'|'trl', 'path': [[group tag, instance index]…], 'tag', ['idx'], ['val'], ['inst'], 'r'}
+#   path  walks from the segment down through group instances; the edit acts on the segment / instance it reaches:
+#   set      target[tag] = val                      (a field, or a whole list of instances for a group)
+#   pop      target.values.pop(tag)                 (the idiom the library itself uses to remove a field)
+#   append / insert / replace / delete              on the list of instances of group `tag` of the target
+#   'r' seeds the choice between the spellings of the API (by tag / name / attribute / .groups …): same edit, same replay
+FRAMING = (8, 9, 35, 10)
+SEG_ATTR = {'hdr': 'Header', 'body': 'Body', 'trl': 'Trailer'}
+EDIT_WEIGHT = {'set': 5, 'setgrp': 1, 'append': 2, 'insert': 1, 'replace': 2, 'delete': 1.5, 'pop': 1}
+
+
+def edit_sites(d, m):
+    """every place of the message where something can be assigned: (segment key, path, entries there, the abstract values there)"""
+    def walk(key, entries, seg, path):
+        out = [(key, path, entries, seg)]
+        for t, v in seg:
+            e = fc.find_entry(entries, t)
+            if v[0] == 'grp' and e is not None and e[0] == 'g':
+                for i, inst in enumerate(v[1]):
+                    out += walk(key, e[3], inst, path + [[t, i]])
+        return out
+    return [x for key in ('hdr', 'body', 'trl') for x in walk(key, d[key], m[key], [])]
+
+
+def gen_edit(rng, d, m, deep_bias=True):
+    """one in-place change of the message that holds `m` now; the depth is drawn first (uniformly over the depths present), so that a
+    change two or three levels down is as likely as one at the top however many shallow places there are"""
+    by_depth = {}
+    for site in edit_sites(d, m):
+        by_depth.setdefault(len(site[1]), []).append(site)
+    for _ in range(8):
+        depth = rng.choice(sorted(by_depth)) if deep_bias else len(rng.choice([x for v in by_depth.values() for x in v])[1])
+        key, path, entries, seg = rng.choice(by_depth[depth])
+        present = dict(seg)
+        cands = []
+        for j, e in enumerate(entries):
+            t = e[1]
+            if t in FRAMING or (key == 'hdr' and depth == 0 and t in STAMP_ORDER and rng.random() < 0.8):
+                continue            # the session owns those (pre-set stamped fields are overwritten: now and then only)
+            removable = t in present and not (e[3] if e[0] == 'f' else e[2]) and not (depth > 0 and j == 0)
+            ops = ['set'] if e[0] == 'f' else ['setgrp']
+            if e[0] == 'g' and t in present:
+                ops += ['append', 'insert'] + (['replace', 'delete'] if present[t][1] else [])
+            if removable:
+                ops.append('pop')
+            cands += [(op, e) for op in ops]
+        if cands:
+            break
+    else:
+        return None
+    op, e = rng.choices(cands, weights=[EDIT_WEIGHT[c[0]] for c in cands])[0]
+    t = e[1]
+    ed = {'op': op, 'seg': key, 'path': [list(x) for x in path], 'tag': t, 'r': rng.randrange(1 << 30)}
+    if op == 'set':
+        old = present.get(t)
+        new = fc.gen_prim(rng, e[2])
+        for _ in range(5):
+            if new != old:
+                break
+            new = fc.gen_prim(rng, e[2])
+        ed['val'] = new
+    elif op == 'setgrp':
+        ed['op'] = 'set'
+        n = rng.choice([0, 1, 1, 2, 3])
+        ed['val'] = ('grp', [fc.gen_seg(rng, e[3], group=True, max_inst=2) for _ in range(n)])
+    elif op in ('append', 'insert', 'replace'):
+        n = len(present[t][1])
+        ed['inst'] = fc.gen_seg(rng, e[3], group=True, max_inst=2)
+        if op == 'insert':
+            ed['idx'] = rng.randint(0, n)
+        elif op == 'replace':
+            ed['idx'] = rng.randrange(n)
+    elif op == 'delete':
+        ed['idx'] = rng.randrange(len(present[t][1]))
+    return ed
+
+
+def abs_target(m, ed):
+    seg = m[ed['seg']]
+    for gt, i in ed['path']:
+        seg = next(v for k, v in seg if k == gt)[1][i]
+    return seg
+
+
+def apply_edit_abs(m, ed):
+    """the edit on the abstract message (in place; the caller owns `m`): what the object must hold afterwards — written from what the
+    assignments mean (a dict keeps the position of an existing key, a list is a list), not from the library"""
+    seg = abs_target(m, ed)
+    op, t = ed['op'], ed['tag']
+    if op == 'set':
+        v = copy.deepcopy(ed['val'])
+        for i, (k, _) in enumerate(seg):
+            if k == t:
+                seg[i] = (t, v)
+                break
+        else:
+            seg.append((t, v))
+    elif op == 'pop':
+        seg[:] = [x for x in seg if x[0] != t]
+    else:
+        insts = next(v for k, v in seg if k == t)[1]
+        if op == 'append':
+            insts.append(copy.deepcopy(ed['inst']))
+        elif op == 'insert':
+            insts.insert(ed['idx'], copy.deepcopy(ed['inst']))
+        elif op == 'replace':
+            insts[ed['idx']] = copy.deepcopy(ed['inst'])
+        elif op == 'delete':
+            del insts[ed['idx']]
+        else:
+            raise ValueError(op)
+
+
+def real_container(built, holder, gt, rnd, is_msg=False):
+    """the GroupContainer of group `gt` of a segment / instance (or of the message itself, for its body), reached in one of the
+    spellings the API offers"""
+    cname = None
+    try:
+        cname = type(holder.Body if is_msg else holder).TagNameMapping[gt]        # the container's class name
+    except Exception:  # noqa
+        pass
+    c = rnd.randrange(2 if is_msg else 5)
+    if is_msg or c >= 3:
+        return getattr(holder, cname if (c % 2 and cname) else built.name[gt])
+    return holder[gt] if c == 0 else holder[str(gt)] if c == 1 else holder[built.name[gt]]
+
+
+def apply_edit_real(built, msg, ed):
+    """the edit on the REAL message object, in place: no assignment on any enclosing object"""
+    rnd = random.Random(ed['r'])
+    obj = getattr(msg, SEG_ATTR[ed['seg']])
+    first = ed['seg'] == 'body'
+    for gt, i in ed['path']:
+        cont = real_container(built, msg, gt, rnd, True) if first and rnd.random() < 0.3 else real_container(built, obj, gt, rnd)
+        obj = cont[i] if rnd.random() < 0.7 else cont.groups[i]
+        first = False
+    op, t = ed['op'], ed['tag']
+    if op == 'set':
+        val = fc.py_value(ed['val'], built, rnd.random() < 0.4)
+        c = rnd.randrange(5 if first else 4)
+        if c == 0:
+            obj[t] = val
+        elif c == 1:
+            obj[built.name[t]] = val
+        elif c == 2:
+            setattr(obj, built.name[t], val)
+        elif c == 3:
+            obj[str(t)] = val
+        else:
+            setattr(msg, built.name[t], val)             # `msg.<BodyField> = value`
+        return
+    if op == 'pop':
+        if rnd.random() < 0.5:
+            obj.values.pop(t)
+        else:
+            del obj.values[t]
+        return
+    cont = real_container(built, msg, t, rnd, True) if first and rnd.random() < 0.3 else real_container(built, obj, t, rnd)
+    if op == 'delete':
+        if rnd.random() < 0.5:
+            del cont.groups[ed['idx']]
+        else:
+            cont.groups.pop(ed['idx'])
+        return
+    gcls = type(cont).GroupCls
+    if rnd.random() < 0.6:
+        g = gcls.from_value(fc.py_value(('grp', [ed['inst']]), built, rnd.random() < 0.4)[0])
+    else:
+        g = gcls()                                        # built field by field
+        fc.assign_segment(g, ed['inst'], built, rnd)
+    if op == 'append':
+        cont.groups.append(g)
+    elif op == 'insert':
+        cont.groups.insert(ed['idx'], g)
+    elif op == 'replace':
+        if rnd.random() < 0.5:
+            cont[ed['idx']] = g
+        else:
+            cont.groups[ed['idx']] = g
+    else:
+        raise ValueError(op)
+
+
+def edit_json(ed):
+    out = {k: ed[k] for k in ('op', 'seg', 'path', 'tag', 'r')}
+    if 'idx' in ed:
+        out['idx'] = ed['idx']
+    if 'val' in ed:
+        out['val'] = sx(fc.val_sx(ed['val']))
+    if 'inst' in ed:
+        out['inst'] = sx(fc.seg_sx(ed['inst']))
+    return out
+
+
+def edit_from_json(j):
+    ed = {k: j[k] for k in ('op', 'seg', 'path', 'tag', 'r')}
+    if 'idx' in j:
+        ed['idx'] = j['idx']
+    if 'val' in j:
+        ed['val'] = fc.val_from_parsed(parse_sx(j['val'])[0])
+    if 'inst' in j:
+        ed['inst'] = fc.seg_from_parsed(parse_sx(j['inst'])[0])
+    return ed
+
+
+def edit_sx(ed):
+    """the edit as the model's `fix.resend` reads it"""
+    head = [ed['op'], ed['seg'], [list(x) for x in ed['path']], ed['tag']]
+    if ed['op'] == 'set':
+        return head + [fc.val_sx(ed['val'])]
+    if ed['op'] in ('insert', 'replace'):
+        return head + [ed['idx'], fc.seg_sx(ed['inst'])]
+    if ed['op'] == 'append':
+        return head + [fc.seg_sx(ed['inst'])]
+    if ed['op'] == 'delete':
+        return head + [ed['idx']]
+    return head
+
+
+def edit_text(ed):
+    where = ed['seg'] + ''.join(f'[{t}][{i}]' for t, i in ed['path'])
+    if ed['op'] == 'set':
+        return f'{where}[{ed["tag"]}] = {ed["val"]}'
+    if ed['op'] == 'pop':
+        return f'{where}.values.pop({ed["tag"]})'
+    return f'{where}[{ed["tag"]}].{ed["op"]}({ed.get("idx", "")}{", " if "idx" in ed and "inst" in ed else ""}{ed.get("inst", "")})'
 
 
 def stamped(d, m, sess, seq, time):
@@ -203,30 +478,50 @@ def segmentations(rng, data, n):
 
 # ------------------------------------------------------------------ one session on the virtual loop
 def run_session(v, built, mdefs, logon_d, logon_a, reply, sends, bad_sends, hb_wait, seg_lists):
-    """returns dict: frames written (bytes list), outcome per send, read-back results per segmentation"""
+    """returns dict: frames written (bytes list), outcome per send, read-back results per segmentation.
+    `sends`: (d, m, re) — `re` None: a message object built from `m`; otherwise the object send number re['of'] built, changed in
+    place by re['edits'], sent again.  `snaps[k]`: deep images of the message (`as_collection()`: plain dicts / lists / values,
+    nothing shared with the object, no `to_bytes` involved) right before and right after the k-th `send_msg`."""
     from nasdaq_protocols import fix
     loop = vloop.VirtualLoop()
-    res = {'frames': [], 'send_outcomes': [], 'bad_outcomes': [], 'readback': [], 'error': None, 'sent_colls': []}
+    res = {'frames': [], 'send_outcomes': [], 'bad_outcomes': [], 'readback': [], 'error': None, 'snaps': []}
+
+    def image(msg):
+        try:
+            return msg.as_collection()
+        except Exception as e:  # noqa
+            return ('raises', err_name(e))
 
     async def main():
         tr = vloop.FakeTransport(loop)
         s = session_cls(v)(client_heartbeat_interval=HB, server_heartbeat_interval=1000.0)
         s.connection_made(tr)
         logon = fc.make_message(built, logon_d, logon_a)
+        pre = image(logon)
         t = asyncio.ensure_future(s.login(logon))
         await vloop.turns(3)
         s.data_received(reply)
         await asyncio.wait_for(t, 5.0)
-        res['sent_objs'] = [logon]
-        for d, m in sends:
-            msg = fc.make_message(built, d, m)
+        res['snaps'].append((pre, image(logon)))
+        objs = {}
+        for i, (d, m, re_) in enumerate(sends):
             n0 = len(tr.writes)
+            pre = None
             try:
+                if re_ is None:
+                    msg = objs[i] = fc.make_message(built, d, m)
+                else:
+                    msg = objs[re_['of']]
+                    for ed in re_['edits']:
+                        apply_edit_real(built, msg, ed)
+                pre = image(msg)
                 s.send_msg(msg)
                 res['send_outcomes'].append(('ok', len(tr.writes) - n0))
+                res['snaps'].append((pre, image(msg)))
             except Exception as e:  # noqa
-                res['send_outcomes'].append(('err', err_name(e), len(tr.writes) - n0))
-            res['sent_objs'].append(msg)
+                res['send_outcomes'].append(('err', err_name(e) + ('' if pre is not None else ' (while building / editing the message)'),
+                                             len(tr.writes) - n0))
+                res['snaps'].append((pre, None))
         n_before_hb = len(tr.writes)
         await asyncio.sleep(hb_wait)
         res['n_heartbeats'] = len(tr.writes) - n_before_hb
@@ -335,8 +630,19 @@ def run_plans(ctx, rng, plans):
         ctx.notes.append('model driver unavailable: oracle only')
 
 
+def session_ids(logon_a):
+    """(SenderSubID, TargetCompID, SenderCompID) the session takes from the logon message, and its first sequence number"""
+    hv = dict(logon_a['hdr'])
+    return (hv[50][1] if 50 in hv else '', hv[56][1] if 56 in hv else '', hv[49][1] if 49 in hv else ''), (hv[34][1] if 34 in hv else 0)
+
+
 def gen_plan(rng, quick):
-    mdefs = gen_dictionary(rng)
+    """a session: logon, then send items `[d, m, BodyLength target, re]` — `re` None: a new message object; otherwise
+    {'of': index of the item that built the object, 'edits': in-place changes made before it is sent again} (m is None: what the
+    object holds then follows from the history).  About half of the sessions are re-send histories over a dictionary with
+    groups nested in groups; every other session re-sends now and then."""
+    resend = rng.random() < 0.45
+    mdefs = gen_dictionary(rng, nested=resend)
     v = rng.choice(['44', '50'])
     n_sends = rng.randint(2, 6)
     boundary = rng.choice([9, 99, 999, 9999, 99999, 999999, 99999999])
@@ -345,11 +651,33 @@ def gen_plan(rng, quick):
     logon_d = mdefs[0]
     logon_a = gen_logon(rng, logon_d, seq0)
     apps = mdefs[2:]
+    sess, _ = session_ids(logon_a)
     sends = []
-    for i in range(n_sends):
-        d = rng.choice(apps)
-        m = gen_app_message(rng, d, big=rng.random() < 0.15)
-        sends.append([d, m, rng.choice([None, None, 99, 100, 101, 999, 1000, 9999, 10000])])
+    state = {}          # item index of a new object -> what that object holds now (SendingTime: a placeholder, no edit depends on it)
+    for i in range(n_sends + (rng.randint(1, 3) if resend else 0)):
+        if state and rng.random() < (0.7 if resend else 0.12):
+            roots = sorted(state)
+            deep = [r for r in roots if inst_depth(state[r]['body']) >= 2]
+            root = rng.choice(deep) if deep and rng.random() < 0.6 else rng.choice(roots)
+            d = sends[root][0]
+            m = copy.deepcopy(state[root])
+            edits = []
+            for _ in range(rng.choice([0, 1, 1, 1, 2, 2, 3])):
+                ed = gen_edit(rng, d, m, deep_bias=rng.random() < 0.8)
+                if ed is None:
+                    break
+                apply_edit_abs(m, ed)
+                edits.append(ed)
+            sends.append([d, None, None, {'of': root, 'edits': edits}])
+            state[root] = stamped(d, m, sess, 0, 'T')
+            continue
+        d = apps[0] if resend and not sends else rng.choice(apps)
+        if resend and d is apps[0] and rng.random() < 0.8:
+            m = gen_deep_message(rng, d, rng.choice([2, 2, 3]))
+        else:
+            m = gen_app_message(rng, d, big=rng.random() < 0.15)
+        sends.append([d, m, rng.choice([None, None, 99, 100, 101, 999, 1000, 9999, 10000]), None])
+        state[i] = stamped(d, m, sess, 0, 'T')
     bad = []
     for i in range(rng.randint(0, 2)):
         d = rng.choice(apps)
@@ -369,17 +697,26 @@ def gen_plan(rng, quick):
 
 
 def plan_to_replay(plan, **extra):
+    def item(d, m, re_):
+        if re_ is None:
+            return [plan['mdefs'].index(d), sx(fc.msg_sx(m))]
+        return [plan['mdefs'].index(d), None, {'of': re_['of'], 'edits': [edit_json(e) for e in re_['edits']]}]
     return dict({'kind': 'session', 'v': plan['v'], 'reg': [sx(fc.mdef_sx(x)) for x in plan['mdefs']],
                  'logon': sx(fc.msg_sx(plan['logon'])),
-                 'sends': [[plan['mdefs'].index(d), sx(fc.msg_sx(m))] for d, m, _ in plan['sends']],
+                 'sends': [item(d, m, re_) for d, m, _, re_ in plan['sends']],
                  'hb_wait': plan['hb_wait']}, **extra)
 
 
 def plan_from_replay(rep):
     mdefs = [fc.mdef_from_parsed(parse_sx(x)[0]) for x in rep['reg']]
     mdefs = [dict(x, name=fc.fresh_name()) for x in mdefs]
+
+    def item(it):
+        if len(it) > 2 and it[2] is not None:
+            return [mdefs[it[0]], None, None, {'of': it[2]['of'], 'edits': [edit_from_json(e) for e in it[2]['edits']]}]
+        return [mdefs[it[0]], fc.msg_from_parsed(parse_sx(it[1])[0]), None, None]
     return {'mdefs': mdefs, 'v': rep['v'], 'logon': fc.msg_from_parsed(parse_sx(rep['logon'])[0]),
-            'sends': [[mdefs[i], fc.msg_from_parsed(parse_sx(m)[0]), None] for i, m in rep['sends']], 'bad': [],
+            'sends': [item(it) for it in rep['sends']], 'bad': [],
             'hb_wait': rep.get('hb_wait', 0.0), 'nseg': 3}
 
 
@@ -388,8 +725,41 @@ def fresh_plan(plan):
     ren = {x['name']: fc.fresh_name() for x in plan['mdefs']}
     mdefs = [dict(x, name=ren[x['name']]) for x in plan['mdefs']]
     by = {x['name']: x for x in mdefs}
-    return dict(plan, mdefs=mdefs, sends=[[by[ren[d['name']]], m, t] for d, m, t in plan['sends']],
+    return dict(plan, mdefs=mdefs, sends=[[by[ren[d['name']]], m, t, re_] for d, m, t, re_ in plan['sends']],
                 bad=[(by[ren[d['name']]], m, k) for d, m, k in plan['bad']])
+
+
+def reductions(plan, k):
+    """smaller sessions that may still show what frame `k` showed, smallest first: the one item alone; for a re-send the object's
+    first send followed by ONE re-send (with its own edits / with all edits made to the object so far), the object's own chain"""
+    sends = plan['sends']
+    n_user = 1 + len(sends)
+    if k is None or k == 0:
+        return [dict(plan, sends=[], bad=[], hb_wait=0.0)]
+    if k >= n_user:
+        return [dict(plan, sends=[], bad=[], hb_wait=HB * 2.5)]
+    it = sends[k - 1]
+    if it[3] is None:
+        return [dict(plan, sends=[it], bad=[], hb_wait=0.0)] if len(sends) > 1 else []
+    root = it[3]['of']
+    chain = [i for i in range(k) if sends[i][3] is not None and sends[i][3]['of'] == root]
+    first = list(sends[root])
+
+    def again(edits):
+        return [it[0], None, None, {'of': 0, 'edits': list(edits)}]
+    out = [[first, again(it[3]['edits'])], [first, again([e for i in chain for e in sends[i][3]['edits']])],
+           [first] + [again(sends[i][3]['edits']) for i in chain]]
+    return [dict(plan, sends=x, bad=[], hb_wait=0.0) for x in out if len(x) < len(sends) or x is out[0]]
+
+
+def fewer_edits(plan):
+    """the last re-send of a reduced plan with one edit left out, for every edit"""
+    it = plan['sends'][-1]
+    if it[3] is None:
+        return []
+    eds = it[3]['edits']
+    return [dict(plan, sends=plan['sends'][:-1] + [[it[0], None, None, dict(it[3], edits=eds[:j] + eds[j + 1:])]])
+            for j in range(len(eds))]
 
 
 class ProbeCtx:
@@ -409,7 +779,6 @@ class ProbeCtx:
 
 def run_plan(ctx, rng, plan, pending):
     """run one session; a failure is first reduced to the shortest session that still shows the same finding"""
-    import random
     found = []
     try:
         run_plan_inner(ctx, rng, plan, pending, found)
@@ -421,23 +790,27 @@ def run_plan(ctx, rng, plan, pending):
         return
     what, rep = found[0]
     finding, k = rep.get('finding'), rep.get('frame_index')
-    n_user = 1 + len(plan['sends'])
-    cands = []
-    if k is not None and 1 <= k < n_user and len(plan['sends']) > 1:
-        cands.append(dict(plan, sends=[plan['sends'][k - 1]], bad=[], hb_wait=0.0))
-    if k == 0 or k is None:
-        cands.append(dict(plan, sends=[], bad=[], hb_wait=0.0))
-    if k is not None and k >= n_user:
-        cands.append(dict(plan, sends=[], bad=[], hb_wait=HB * 2.5))
-    for cand in cands:
+
+    def probe(cand):
         f2 = []
         try:
             run_plan_inner(ProbeCtx(), random.Random(1), fresh_plan(cand), [], f2)
         except Exception:  # noqa
-            continue
-        same = [x for x in f2 if x[1].get('finding') == finding]
+            return None
+        return [x for x in f2 if x[1].get('finding') == finding] or None
+    for cand in reductions(plan, k):
+        same = probe(cand)
         if same:
             found = same + [x for x in found if x[1].get('finding') != finding]
+            for _ in range(6):                      # leave out edits the finding does not need
+                for c2 in fewer_edits(cand):
+                    s2 = probe(c2)
+                    if s2:
+                        cand, found = c2, s2 + found[len(same):]
+                        same = s2
+                        break
+                else:
+                    break
             break
     for what, rep in found[:6]:
         report(ctx, what, rep)
@@ -448,18 +821,16 @@ def run_plan_inner(ctx, rng, plan, pending, found):
     ver = VERSIONS[v]
     logon_d, hb_d = mdefs[0], mdefs[1]
     logon_a = plan['logon']
-    hv = dict(logon_a['hdr'])
-    sess = (hv[50][1] if 50 in hv else '', hv[56][1] if 56 in hv else '', hv[49][1] if 49 in hv else '')
-    seq0 = hv[34][1] if 34 in hv else 0
+    sess, seq0 = session_ids(logon_a)
     # padding towards BodyLength boundaries (needs the sequence number each message will get)
     sends = []
-    for i, (d, m, target) in enumerate(plan['sends']):
-        if target is not None:
+    for i, (d, m, target, re_) in enumerate(plan['sends']):
+        if target is not None and re_ is None:
             m2 = pad_to(rng, ver, d, m, sess, seq0 + 1 + i, target)
             if m2 is not None:
                 m = m2
-        sends.append((d, m))
-    plan = dict(plan, sends=[[d, m, None] for d, m in sends])
+        sends.append((d, m, re_))
+    plan = dict(plan, sends=[[d, m, None, re_] for d, m, re_ in sends])
     rep_base = plan_to_replay(plan)
     try:
         built = fc.build_dictionary(mdefs)
@@ -486,22 +857,45 @@ def run_plan_inner(ctx, rng, plan, pending, found):
     md_sx = {x['name']: sx(fc.mdef_sx(x)) for x in mdefs}
     reg_sx = '(' + ' '.join(md_sx[x['name']] for x in mdefs) + ')'
     sess_sx = '(sess ' + sx(cps(sess[0])) + ' ' + sx(cps(sess[1])) + ' ' + sx(cps(sess[2])) + ')'
-    # which message does frame k carry?
-    carried = [(logon_d, logon_a)] + list(sends)
-    n_user = len(carried)
-    for oc in res['send_outcomes']:
+    n_user = 1 + len(sends)
+    for i, oc in enumerate(res['send_outcomes']):
         if oc[0] != 'ok' or oc[1] != 1:
-            found.append((f'sending a valid message: {oc}', dict(rep_base, finding='send-raises')))
+            found.append((f'sending a valid message: {oc}', dict(rep_base, finding='send-raises', frame_index=i + 1)))
             return
+    # which message does frame k carry?  A new object: what it was built from; a re-send: what the object held after its previous
+    # send (stamped header, SendingTime as read from that frame) with the edits applied — the harness' own simulation
+    carried = [(logon_d, logon_a)]
+    holds = {}              # item index of a new object -> what it holds after its latest send
+    history = {}            # the same -> [first message, ops…] of the object's life so far (for the model's `fix.resend`)
+    root_of = []
     expected_frames = n_user + res.get('n_heartbeats', 0)
     good_frames = frames[:expected_frames]
     ctx.count('heartbeats', res.get('n_heartbeats', 0))
     stamped_msgs = []
+    snap_msgs = []
     for k, frame in enumerate(good_frames):
-        d, m = carried[k] if k < n_user else (hb_d, {'hdr': [], 'body': [], 'trl': []})
         seq = seq0 + k
         time = time_of(frame)
+        root = None
+        if 1 <= k < n_user:
+            d, m, re_ = sends[k - 1]
+            root = k - 1 if re_ is None else re_['of']
+            if re_ is not None:
+                m = copy.deepcopy(holds[root])
+                for ed in re_['edits']:
+                    apply_edit_abs(m, ed)
+                    ctx.count(f'edit:{ed["op"]}:{"group" if ed.get("val", ("",))[0] == "grp" else "field"}:depth{len(ed["path"])}:{ed["seg"]}'
+                              if ed['op'] in ('set', 'pop') else f'edit:{ed["op"]}:depth{len(ed["path"])}:{ed["seg"]}')
+                ctx.count('resend:%d-edits:instances-%d-deep' % (len(re_['edits']), inst_depth(m['body'])))
+                history[root] += [edit_sx(ed) for ed in re_['edits']]
+            else:
+                history[root] = [m]
+            history[root].append(['send', seq, cps(time)])
+            carried.append((d, m))
+        d, m = carried[k] if k < n_user else (hb_d, {'hdr': [], 'body': [], 'trl': []})
         st = stamped(d, m, sess, seq, time)
+        if root is not None:
+            holds[root] = st
         stamped_msgs.append((d, st))
         rep = dict(rep_base, frame_index=k, frame=frame.hex())
         crep = frame.hex()
@@ -528,14 +922,36 @@ def run_plan_inner(ctx, rng, plan, pending, found):
         # ---- model
         line = f'fix.frame {sx(cps(ver))} {md_sx[d["name"]]} {sess_sx} {seq} {sx(cps(time))} {sx(fc.msg_sx(m))}'
         pending.append((line, f'ok {sx(frame)} {sx(fc.msg_sx(st))}', f'fix.frame (frame {k}, type {d["type"]})', rep))
-        # the message object as mutated by send_msg
+        # the message object right before the send (after the in-place edits) and as mutated by send_msg: deep images taken then
+        snap_msgs.append(None)
         if k < n_user:
             try:
-                coll = fc.msg_of_collection(d, res['sent_objs'][k].as_collection())
+                pre, post = res['snaps'][k]
+                if fc.msg_of_collection(d, pre) != m:
+                    ctx.disagree(f'frame {k}: before the send the message object held {fc.msg_of_collection(d, pre)}, the assignments / '
+                                 f'in-place edits made to it say {m}', dict(rep, finding='object-state'))
+                coll = fc.msg_of_collection(d, post)
+                snap_msgs[-1] = coll
                 if coll != st:
-                    found.append((f'frame {k}: header stamping left {coll["hdr"]} expected {st["hdr"]}', dict(rep, finding='stamping')))
+                    found.append((f'frame {k}: header stamping left {coll["hdr"]} expected {st["hdr"]}' if coll['hdr'] != st['hdr'] else
+                                  f'frame {k}: after the send the message holds {coll}, expected {st}', dict(rep, finding='stamping')))
+                # ---- the frame against the message AS IT WAS at this send (the deep image, not the harness' simulation)
+                ref2 = ref_frame(ver, d, coll)
+                if frame != ref2 and ref2 != ref:
+                    found.append((f'frame {k} does not carry what the message object held when it was sent: got {frame[:90]!r} expected '
+                                  f'{ref2[:90]!r}', dict(rep, finding='frame-bytes')))
             except Exception as e:  # noqa
                 found.append((f'frame {k}: as_collection of the sent message raised {err_name(e)}', dict(rep, finding='stamping')))
+    # ---- the model on whole object histories: first message, edits and sends in order -> the frames of that object, what it holds
+    for root, h in sorted(history.items()):
+        if sum(1 for x in h[1:] if x[0] == 'send') < 2 or not HISTORY_OP:
+            continue
+        d = sends[root][0]
+        ks = [1 + i for i in range(len(sends)) if (i == root or (sends[i][2] is not None and sends[i][2]['of'] == root))]
+        ks = [k for k in ks if k < len(good_frames)]
+        line = f'fix.resend {sx(cps(ver))} {md_sx[d["name"]]} {sess_sx} {sx(fc.msg_sx(h[0]))} {sx(h[1:])}'
+        exp = 'ok (' + ' '.join(sx(good_frames[k]) for k in ks) + ') ' + sx(fc.msg_sx(holds[root]))
+        pending.append((line, exp, f'fix.resend (object of send {root + 1}: {len(ks)} sends)', dict(rep_base, frame_index=ks[-1])))
     # ---- sends that must fail (agreement only)
     for (d, m, kind), oc in zip(plan['bad'], res['bad_outcomes']):
         ctx.count(f'bad-send:{kind}:{oc[0]}')
@@ -581,7 +997,14 @@ def run_plan_inner(ctx, rng, plan, pending, found):
                 found.append((f'read-back frame {k}: not of the shape 8=<version>|9=<n>|… ({err_name(e)})', dict(rep, finding='readback-decode', frame=fr.hex())))
                 continue
             if name != d['name'] or coll != exp:
-                found.append((f'read-back frame {k}: decoded {name} {coll} != sent {d["name"]} {exp}', dict(rep, finding='readback-decode', frame=fr.hex())))
+                found.append((f'read-back frame {k}: decoded {name} {coll} != sent {d["name"]} {exp}',
+                              dict(rep, finding='readback-decode', frame=fr.hex(), frame_index=k)))
+            elif k < len(snap_msgs) and snap_msgs[k] is not None and snap_msgs[k] != st:
+                # equal to what was SENT: the deep image of the object taken at the send
+                exp2 = expected_collection(ver, d, snap_msgs[k], fr)
+                if coll != exp2:
+                    found.append((f'read-back frame {k}: decoded {coll} != what the message object held when it was sent {exp2}',
+                                  dict(rep, finding='readback-decode', frame=fr.hex(), frame_index=k)))
             if skip != (d['type'] == '0') or stop != (d['type'] == '5'):
                 found.append((f'read-back frame {k}: heartbeat/logout flags wrong', dict(rep, finding='readback-decode')))
             pending.append((f'fix.deser {reg_sx} {sx(fr)}', f'ok {sx(cps(name))} {sx(fc.msg_sx(coll))} x',
